@@ -178,7 +178,10 @@ func readTar(gzr io.Reader) (bool, error) {
 		}
 		switch hdr.Typeflag {
 		case tar.TypeDir:
-			if err := os.MkdirAll(hdr.Name, core.DirPermissions); err != nil {
+			// The directory may still be there from a previous version of the target; its old entries must not survive.
+			if err := fs.RemoveAll(hdr.Name); err != nil {
+				return false, err
+			} else if err := os.MkdirAll(hdr.Name, core.DirPermissions); err != nil {
 				return false, err
 			}
 		case tar.TypeReg:
